@@ -51,11 +51,11 @@ Definition atom_type (a : atom) : atype :=
   end.
 
 (** The zero value Go gives a native field of that atomic type; the symbol 0
-    is reserved by the harness for the empty string (and is never a UUID). *)
+    is reserved by the harness for the empty string (also the zero value of a uuid-typed Go field). *)
 Definition atom_zero (t : atype) : atom :=
   match t with
   | TInt => AInt 0 | TReal => AReal 0 1 | TBool => ABool false
-  | TStr => AStr 0%N | TUuid => AStr 0%N
+  | TStr => AStr 0%N | TUuid => AUuid 0%N
   end.
 
 (** Canonical values: extensional equality is Leibniz equality. *)
